@@ -490,6 +490,7 @@ func (ex *Exec) load(st *State, in ssa.Instruction, a SVal) SVal {
 	case a.HAddr != nil:
 		v := st.heap.read(fc.d, a.HAddr.key, a.HAddr.sort, a.HAddr.ref)
 		st.assume(fc.wellFormed(v, a.HAddr.typ, st.alloc()))
+		st.assume(fc.typeInvariant(v, a.HAddr.typ))
 		if strings.HasPrefix(a.HAddr.key, "global:") && !strings.Contains(a.HAddr.key[7:], ".") {
 			for _, f := range fc.globalAssumptions(st.heap, a.HAddr.key[7:], v) {
 				st.assume(f)
